@@ -3,6 +3,7 @@
 (property text + worktree path only; nothing from /verif)."""
 import json, os, subprocess, sys
 pid = sys.argv[1]
+SECOND = len(sys.argv) > 2 and sys.argv[2] == 'second'
 W = '/tmp/seed/%s' % pid
 os.makedirs('/tmp/seed', exist_ok=True)
 if not os.path.exists(W):
@@ -26,4 +27,4 @@ Deliver, in {W}-out/ :
  - patch.diff : output of `git -C {W} diff` (source changes only; no build outputs; do not edit tests or expected outputs; do not commit);
  - the demo source(s) and a run.sh that builds and runs the demo given the worktree path as $1;
  - NOTES.md : which clause of the property breaks, what the break needs to manifest, what you ran and what you saw (pinned tests result; demo output on the modified tree and on the unmodified tree).
-Keep the patch small (a few lines to a few dozen). Use at most 6 parallel build jobs. Read the code the property is anchored in before choosing the change. Your final message should give: a one-line summary of the change, the files changed, whether the pinned tests passed (with the ctest summary line), and the demo result.'''.format(W=W, prop=json.dumps(prop, indent=1)))
+@@SECOND@@Keep the patch small (a few lines to a few dozen). Use at most 6 parallel build jobs. Read the code the property is anchored in before choosing the change. Your final message should give: a one-line summary of the change, the files changed, whether the pinned tests passed (with the ctest summary line), and the demo result.'''.format(W=W, prop=json.dumps(prop, indent=1)).replace('@@SECOND@@', 'Other contributors have already tried the most obvious change for this property (the first function a reader of the property would look at): choose a less central code path that the property also depends on - another file among the anchors, a helper, a rarely used option or variant, an initialisation or teardown step. ' if SECOND else ''))
